@@ -110,7 +110,7 @@ def rand_string(rng, n):
 
 class P(Property):
     id = 'C15'
-    gen_modules = ['gen_prefixint', 'gen_huffman', 'gen_huffman_enc']
+    gen_modules = ['gen_prefixint', 'gen_huffman', 'gen_huffman_enc', 'gen_prefixstring', 'gen_bitwin']
     properties_v = 'Properties/C15.v'
     model_targets = ['Model/PrefixString.vo', 'Spec/PrefixInt.vo', 'Spec/RFC7541Huffman.vo', 'Spec/HuffmanKnown.vo']
     extract_v = 'Extract/ExtractC15.v'
@@ -123,7 +123,10 @@ class P(Property):
             '+-1, 2^64-1) at every truncation, with trailing octets, non-minimal forms up to 11 continuation octets, all 1- and '
             '2-octet inputs, random continuation patterns; pi.enc: sizes x flags x the same values; ps.dec/ps.enc: sizes 2..8 x '
             'raw and Huffman payloads incl. mutated and truncated ones; pi.decc/ps.decc: the same decode inputs as NON-contiguous '
-            'Buf (h3v::ChunkBuf) cut at every position with 1 and 2 cuts. non-trivial = distinct cases that get past the first '
+            'Buf (h3v::ChunkBuf) cut at every position with 1 and 2 cuts; ps.dec/ps.decc with declared lengths L + k*2^w '
+            '(w in 8,16,32,63,64) over L octets present; he.big/hd.big/ps.rt: seeded strings of 2^8..2^22 octets (+-1) built in '
+            'both drivers, results compared as digests (model = extracted model up to 1024 octets, proved-equal native '
+            'table-driven code above). non-trivial = distinct cases that get past the first '
             'decision (non-empty input; for pi.dec a full prefix, i.e. the continuation loop is entered; for hd/ps.dec at least one '
             'complete symbol or a padding check is reached)')
     trusted_extra = [
@@ -314,9 +317,40 @@ class P(Property):
             for _ in range(200 if quick else 20000):
                 out.append('ps.dec %d %s' % (size, hx(rb(rng, rng.randint(0, 8)))))
             out.append('ps.enc %d 0 -' % size)
+            # declared lengths that would only fit after wrapping / truncation: L + k * 2^w with L octets present
+            for w in (8, 16, 32, 63, 64):
+                for k in (1, 2, 255):
+                    for L in (0, 1, 3, 9):
+                        v = L + k * 2 ** w
+                        for huff in (0, 1):
+                            payload = (huff_encode(b'abcdefghi'[:L]) if huff else b'abcdefghi'[:L])
+                            if huff:
+                                v = len(payload) + k * 2 ** w
+                            f = rng.getrandbits(8 - size) if size < 8 else 0
+                            hdr = pi_encode(n, ((f << 1) | huff) & ((1 << (8 - n)) - 1), v)
+                            out.append('ps.dec %d %s' % (size, hx(hdr + payload)))
+                            out.append('ps.dec %d %s' % (size, hx(hdr + payload + b'zz')))
             # long-ones payloads inside a string literal
             for pl in (b'\xff', b'\xff\xff', b'\xff\xff\xff\xff', b'\xf8\xff', b'\xff' * 5, b'\x1f\xff\xff'):
                 out.append('ps.dec %d %s' % (size, hx(pi_encode(n, 1, len(pl)) + pl + b'zz')))
+        # --- large seeded strings (built inside both drivers from the seed; results are digests)
+        for ln in (255, 1000, 1024, 2 ** 13, 2 ** 16 - 1, 2 ** 16, 2 ** 16 + 1, 2 ** 17):
+            for seed in (0, 1):
+                out.append('he.big %d %d' % (ln, seed))
+                out.append('hd.big %d %d' % (ln, seed))
+        if not quick:
+            for ln in (2 ** 20, 2 ** 22 + 1):
+                out.append('he.big %d 2' % ln)
+                out.append('hd.big %d 3' % ln)
+        i = 0
+        for k in range(8, 23):
+            for d in (-1, 0, 1):
+                size = 2 + i % 7
+                out.append('ps.rt %d %d %d' % (size, 2 ** k + d, i))
+                i += 1
+        for size in range(2, 9):
+            for ln in (0, 1, 126, 127, 128, 1023):
+                out.append('ps.rt %d %d %d' % (size, ln, 100 + size))
         return out
 
     # ------------------------------------------------------------------ comparison
